@@ -17,7 +17,7 @@ ALL = ['P_T', 'P_TA', 'P_N', 'F_T', 'F_TA', 'F_N', 'V_T', 'V_TA', 'V_N', 'M_T', 
 VARYING = ['V_T', 'V_TA', 'V_N', 'M_T', 'M_NA', 'VV_T']
 ALIGNED = ['P_TA', 'F_TA', 'V_TA', 'M_NA', 'VV_T']
 NONTRIV = ['P_N', 'F_N', 'V_N', 'M_NA']
-S5Q = ['P_T', 'P_TA', 'P_N', 'F_T', 'F_TA', 'F_N', 'V_T', 'V_TA', 'V_N', 'M_T', 'B_T', 'B_TA', 'VB_T', 'P_TB', 'B_B']
+S5Q = ['P_T', 'P_TA', 'P_N', 'F_T', 'F_TA', 'F_N', 'V_T', 'V_TA', 'V_N', 'M_T', 'B_T', 'B_TA', 'VB_T', 'P_TB', 'B_B', 'BB_T']
 
 K_SEQ = {'SIZE', 'EMPTY', 'CAP', 'SHAPE', 'VALUES', 'RETURNED_ITERATOR', 'STATE', 'OBS_MISSING', 'OBS_OF_ABSENT'}
 K_MEM = {'BOUNDS', 'DATA_RANGE', 'DATA_EXCEEDS_MEMORY_CONSUMPTION', 'MEMORY_CONSUMPTION_EXCEEDS_BLOCK',
@@ -95,11 +95,11 @@ def ul(tier):
             sel = [('pairs', False, True, 1, False, 2), ('pairs2', False, True, 3, False, 2),
                    ('triples', False, True, 16, False, 3),
                    ('pairs', False, False, 6, False, 1), ('pairs2', False, False, 20, False, 1),
-                   ('triples', False, False, 80, False, 1)]
+                   ('triples', False, False, 80, False, 1), ('pairs3', False, None, 3, False, 1)]
         else:
             sel = [('pairs', True, True, 1, True, 1), ('pairs2', True, True, 1, True, 1), ('triples', True, True, 1, True, 1),
                    ('pairs', True, False, 1, False, 1), ('pairs2', True, False, 1, False, 1),
-                   ('triples', True, False, 1, False, 1)]
+                   ('triples', True, False, 1, False, 1), ('pairs3', True, None, 1, True, 1)]
         out = []
         for name, fine, cheap, every, everything, reps in sel:
             for d in vlib.select_lists(name, fine, cheap, every, everything, reps):
@@ -143,8 +143,8 @@ PROPS = {
                          'recorded state; blocks based at odd multiples of the storage alignment; includes the g++ -O2 -DNDEBUG '
                          'build in which the library\'s assume_aligned hints are live'},
     'C04': {'level': 'model_checking',
-            'units': {'quick': Units(u('S1', ALL) + u('SF', VARYING), ul('quick')),
-                      'thorough': Units(u('S1', ALL, ('AE', 'NP')) + u('SF', VARYING), ul('thorough'))},
+            'units': {'quick': Units(u('S1', ALL) + u('SF', VARYING) + u('S2', ALL, ('NP',)), ul('quick')),
+                      'thorough': Units(u('S1', ALL, ('AE', 'NP')) + u('SF', VARYING) + u('S2', ALL, ('NP', 'AE', 'PR')), ul('thorough'))},
             'kinds': K_ORDER, 'crash': never, 'filter': None,
             'technique': 'observed field/element ranges judged by Layout!ElemsInOrder (order, containment, '
                          'disjointness, span counts, iterator.data) in every recorded state'},
@@ -271,7 +271,7 @@ GROUP_OPS = {
     'REF_OPS': 'assignment / move assignment / swap / iter_swap between references, rotate, reverse, swap_ranges',
     'CMP': 'comparison operators between vectors, references and elements',
 }
-C20_CONFIGS = ALL + ['B_T', 'B_TA', 'VB_T', 'P_TB', 'B_B']
+C20_CONFIGS = ALL + ['B_T', 'B_TA', 'VB_T', 'P_TB', 'B_B', 'BB_T']
 
 
 def run_c20(tier, seed):
